@@ -40,6 +40,9 @@ func c20Alphabet() []rioRec {
 		{"c300", bytes.Repeat([]byte("abcabcabd"), 34)[:300]},
 		{"mk", append([]byte{0x91, 0x8d, 0x4c, 0x00}, 0x91)},
 		{"z40", make([]byte, 40)},
+		// only used by the dedicated large-record cases (not part of the enumerated alphabet)
+		{"i20000", incompressible(20000, 31)},
+		{"i2100000", incompressible(2100000, 32)},
 	}
 }
 
@@ -48,7 +51,7 @@ func (c c20) Run(ctx *core.Ctx) error {
 	if ctx.Tier == "thorough" {
 		maxLen = 5
 	}
-	na := len(c20Alphabet())
+	na := len(c20Alphabet()) - 2 // the two large records are not enumerated
 	var cases []json.RawMessage
 	var rec func(cur []int)
 	rec = func(cur []int) {
@@ -101,8 +104,14 @@ func (c c20) Run(ctx *core.Ctx) error {
 		}
 	}
 	ctx.Ev.Bounds["seek_programs_max_length"] = seekMax
+	// stored lengths whose base-128 encoding needs 3 and 4 groups (>= 2^14 and >= 2^21 bytes): alphabet indexes 6 and 7
+	for comp := 0; comp < 4; comp++ {
+		for _, recs := range [][]int{{6}, {2, 6, 2}, {6, 6}, {7}, {2, 7, 2}} {
+			cases = append(cases, core.J(c20Case{Kind: "file", Recs: recs, Comp: comp}))
+		}
+	}
 	cases = append(cases, core.J(c20Case{Kind: "enum"}))
-	ctx.Ev.Rule = "every record sequence up to the length bound over {nil, empty, a, 300 compressible bytes, marker-bearing, 40 zero bytes} x 4 compression types x write buffer {16, 4096} is written by the current writer and parsed with gokaitai.RecordioV4; record count, nil flags and stored payload bytes are compared with the byte layout the native reader uses; plus every writer program with Seek(to a surviving boundary) up to seek_programs_max_length; plus the compression enum of the schema and of the generated code against the writer constants. non-trivial = at least one record"
+	ctx.Ev.Rule = "every record sequence up to the length bound over {nil, empty, a, 300 compressible bytes, marker-bearing, 40 zero bytes} (plus files with a 20000-byte and a 2100000-byte record: 3- and 4-group length encodings) x 4 compression types x write buffer {16, 4096} is written by the current writer and parsed with gokaitai.RecordioV4; record count, nil flags and stored payload bytes are compared with the byte layout the native reader uses; plus every writer program with Seek(to a surviving boundary) up to seek_programs_max_length; plus the compression enum of the schema and of the generated code against the writer constants. non-trivial = at least one record"
 	ctx.Ev.Bounds["max_records"] = maxLen
 	rs := ctx.Pmap(cases)
 	ctx.Fold(rs, cases)
@@ -293,6 +302,20 @@ func (c c20) enumCase() core.Result {
 					}
 				}
 			}
+		}
+	}
+	// every code the library accepts for writing must be known to the schema and to the generated reader: probe the
+	// whole range instead of trusting the list of names above
+	for code := 0; code < 1024; code++ {
+		r.Evals++
+		if _, err := recordio.NewCompressorForType(code); err != nil {
+			continue
+		}
+		if _, known := writerCompressionNames[code]; known {
+			continue
+		}
+		if ksyEnum[code] == "" || goEnum[code] == "" {
+			r.Viol = append(r.Viol, core.Violation{Desc: fmt.Sprintf("the library accepts compression code %d for writing, but the schema enum (%q) / the generated reader (%q) do not know it", code, ksyEnum[code], goEnum[code])})
 		}
 	}
 	for code, name := range writerCompressionNames {
